@@ -104,9 +104,6 @@ theorem nib_laws (kind : ImgKind) (six : Bool) (vol : Nat) : SecLaws (nibStore k
     · rcases hre with h | h <;> subst h <;> simp [nibStore, hr, optOf]
     · rcases hwe with h | h <;> subst h <;> simp [nibStore, hw, okOf]
 
-/-- content of a freshly created disk: every sector 256 zeros -/
-def zeros (unit : CHS → Nat) : CHS → List Nat := fun a => List.replicate (unit a) 0
-
 /-- `Nib::create` / `Woz1::create` / `Woz2::create` (any volume number): the image satisfies the invariant and
 every sector reads as 256 zeros -/
 theorem nib_create_shows (kind : ImgKind) (six : Bool) (vol : Nat) (hv : vol < 256) :
